@@ -459,7 +459,7 @@ theorem sprint_mp : ∀ {a b : GoVal}, MP a b → RRel true Eq (sprint a) (sprin
   | _, _, .mapSlice hm => by
     rw [sprint, sprint]
     exact rrel_true_bind_soft (sprintItems_mpv hm) (fun _ => RRel.of_eq (fun _ => rfl) rfl)
-  | _, _, .keyedMap hf => by
+  | _, _, .keyedMap _ hf => by
     rw [sprint, sprint]
     exact rrel_true_bind_soft (sprintFields_mpf hf) (fun _ => RRel.of_eq (fun _ => rfl) rfl)
   | _, _, .struct hf => by
@@ -540,9 +540,9 @@ theorem writeWF : ∀ n : Nat,
       | mapSlice hm =>
         simp only [writeObjectL]
         exact rrel_true_bind_soft (sprintItems_mpv hm) (fun _ => rrel_eq_refl _)
-      | keyedMap hf =>
+      | keyedMap _ hf =>
         rw [writeObjectL_sprint_of_tag (.inr (.inl rfl)), writeObjectL_sprint_of_tag (.inr (.inl rfl))]
-        exact sprint_mp (MP.keyedMap hf)
+        exact sprint_mp (MP.keyedMap ‹_› hf)
       | struct hf =>
         rw [writeObjectL_sprint_of_tag (.inr (.inr (.inr rfl))), writeObjectL_sprint_of_tag (.inr (.inr (.inr rfl)))]
         exact sprint_mp (MP.struct hf)
